@@ -24,7 +24,7 @@ def strip_prefix(rec):
     return rec
 
 
-def owning_fields(prog, E, prefix="mpq_"):
+def owning_fields(prog, E, prefix="mpq_", by_func=None):
     """record name -> set of field paths (tuples of 'Rec::field') that some function releases through a parameter whose
     type is a pointer to that record"""
     own = collections.defaultdict(set)
@@ -58,6 +58,8 @@ def owning_fields(prog, E, prefix="mpq_"):
                 ptype = f.params[k][2]
                 if rec in ptype:
                     own[rec].add(fl)
+                    if by_func is not None:
+                        by_func.setdefault(rec, {}).setdefault(f.key, set()).add(fl)
     # a record that embeds an owning record by value owns through it
     changed = True
     while changed:
